@@ -60,7 +60,16 @@ package corazawaf
 //@   ensures removed: isnil(result) && old(br.writer) != nil ==> liveTmp == remove(old(liveTmp), old(br.writer.name))
 //@   ensures tried: old(br.writer) != nil ==> in(old(br.writer.name), removeTried)
 //@   ensures nothingElse: forall s string :: in(s, liveTmp) ==> in(s, old(liveTmp))
+// frame facts needed by a caller that resets two buffers in a row ((*Transaction).Close): no other temp file is touched,
+// no recorded removal attempt is forgotten, readers are only ever detached (never re-attached), and every reader the
+// buffer had handed out (attachedTo, defined in zz_contracts_close_verif.go) is detached
+//@   ensures onlyOwn: forall s string :: in(s, old(liveTmp)) && !(old(br.writer) != nil && s == old(br.writer.name)) ==> in(s, liveTmp)
+//@   ensures triedKept: forall s string :: in(s, old(removeTried)) ==> in(s, removeTried)
+//@   ensures onlyDetaches: forall r *bodyBufferReader :: r.br == old(r.br) || r.br == nil
+//@   ensures detachedPtr: forall r *bodyBufferReader :: old(attachedTo(br, r)) ==> r.br == nil
 //@   loop 1
+//@     invariant onlyDetaches: forall r *bodyBufferReader :: r.br == old(r.br) || r.br == nil
+//@     invariant detachedPtr: forall r *bodyBufferReader, j int :: 0 <= j && j <= rangeindex && br.readers[j] == r ==> r.br == nil
 //@     invariant -1 <= rangeindex && rangeindex < len(br.readers) && br.readers == old(br.readers)
 //@     invariant forall j int :: 0 <= j && j <= rangeindex ==> br.readers[j].br == nil
 //@     invariant br.length == 0 && br.buffer.content == "" && br.writer == old(br.writer) && br.buffer == old(br.buffer)
@@ -225,6 +234,12 @@ package corazawaf
 //@   ensures len(result.matchedRules) == 0 && result.ruleRemoveByID == nil && len(result.ruleRemoveByIDRanges) == 0
 //@   ensures len(result.ruleRemoveTargetByID) == 0 && len(result.stopWatches) == 0
 //@   ensures result.requestBodyBuffer != nil && result.responseBodyBuffer != nil
+// whether the object comes from the pool (Pool.Get: PooledInv, /verif/specs/close.spec) or is brand new, both body
+// buffers are empty and the object is not in the pool any more (EmptyBuf, inPool: zz_contracts_close_verif.go)
+//@   ensures buffersEmpty: EmptyBuf(result.requestBodyBuffer) && EmptyBuf(result.responseBodyBuffer)
+//@   ensures notPooled: !result.inPool
+//@   ensures givenID: result.id == opts.ID
+//@   ensures othersPooledAsBefore: forall t *Transaction :: t != result ==> t.inPool == old(t.inPool)
 
 // All hands every collection of the transaction to the callback (enumerated from the struct type): a collection
 // that is not visited is never reset when the transaction is recycled.
